@@ -48,7 +48,10 @@ pub fn init_error(interp: &mut Interpreter) {
     // Set constructor property on Error.prototype
     error_proto
         .borrow_mut()
-        .set_property(constructor_key.clone(), JsValue::Object(error_fn.clone()));
+        .define_property(
+            constructor_key.clone(),
+            crate::value::Property::with_attributes(JsValue::Object(error_fn.clone()), true, false, true),
+        );
 
     // Register Error globally
     interp
@@ -71,9 +74,9 @@ pub fn init_error(interp: &mut Interpreter) {
     type_error_fn
         .borrow_mut()
         .set_property(proto_key.clone(), JsValue::Object(type_error_proto.clone()));
-    type_error_proto.borrow_mut().set_property(
+    type_error_proto.borrow_mut().define_property(
         constructor_key.clone(),
-        JsValue::Object(type_error_fn.clone()),
+        crate::value::Property::with_attributes(JsValue::Object(type_error_fn.clone()), true, false, true),
     );
     interp
         .global
@@ -96,9 +99,9 @@ pub fn init_error(interp: &mut Interpreter) {
         proto_key.clone(),
         JsValue::Object(reference_error_proto.clone()),
     );
-    reference_error_proto.borrow_mut().set_property(
+    reference_error_proto.borrow_mut().define_property(
         constructor_key.clone(),
-        JsValue::Object(reference_error_fn.clone()),
+        crate::value::Property::with_attributes(JsValue::Object(reference_error_fn.clone()), true, false, true),
     );
     interp
         .global
@@ -120,9 +123,9 @@ pub fn init_error(interp: &mut Interpreter) {
         proto_key.clone(),
         JsValue::Object(range_error_proto.clone()),
     );
-    range_error_proto.borrow_mut().set_property(
+    range_error_proto.borrow_mut().define_property(
         constructor_key.clone(),
-        JsValue::Object(range_error_fn.clone()),
+        crate::value::Property::with_attributes(JsValue::Object(range_error_fn.clone()), true, false, true),
     );
     interp
         .global
@@ -144,9 +147,9 @@ pub fn init_error(interp: &mut Interpreter) {
         proto_key.clone(),
         JsValue::Object(syntax_error_proto.clone()),
     );
-    syntax_error_proto.borrow_mut().set_property(
+    syntax_error_proto.borrow_mut().define_property(
         constructor_key.clone(),
-        JsValue::Object(syntax_error_fn.clone()),
+        crate::value::Property::with_attributes(JsValue::Object(syntax_error_fn.clone()), true, false, true),
     );
     interp
         .global
@@ -169,9 +172,9 @@ pub fn init_error(interp: &mut Interpreter) {
     uri_error_fn
         .borrow_mut()
         .set_property(proto_key.clone(), JsValue::Object(uri_error_proto.clone()));
-    uri_error_proto.borrow_mut().set_property(
+    uri_error_proto.borrow_mut().define_property(
         constructor_key.clone(),
-        JsValue::Object(uri_error_fn.clone()),
+        crate::value::Property::with_attributes(JsValue::Object(uri_error_fn.clone()), true, false, true),
     );
     interp
         .global
@@ -193,7 +196,10 @@ pub fn init_error(interp: &mut Interpreter) {
         .set_property(proto_key, JsValue::Object(eval_error_proto.clone()));
     eval_error_proto
         .borrow_mut()
-        .set_property(constructor_key, JsValue::Object(eval_error_fn.clone()));
+        .define_property(
+            constructor_key,
+            crate::value::Property::with_attributes(JsValue::Object(eval_error_fn.clone()), true, false, true),
+        );
     interp
         .global
         .borrow_mut()
